@@ -4,39 +4,59 @@ From Coq Require Import List Arith Lia Bool.
 From TLXV Require Import C12.CPtr C12.CPtrProofs C12.Conc C12.ConcProofs.
 Import ListNotations.
 
+(** all variables have the default Deleter *)
+Definition alldef : var -> bool := fun _ => false.
+(** variable 2 is a CountingPtrNoDelete handle *)
+Definition nd2 : var -> bool := fun v => v =? 2.
+
 (** a history with three aliases, self- and alias-assignments, move from an alias, unify on a shared object *)
 Definition ex_ops : list op :=
   [ONew 0 5; OCopyCtor 2 0; OConvCopyCtor 1 0; OCopyAssign 0 0; OMoveAssign 0 0; OCopyAssign 0 2; OMoveAssign 0 2;
    OUnify 0; OSwap 0 2; OReset 2; ODestroy 0; ONew 3 7; OConvMoveAssign 3 2; OFromRaw 0 1; OAssignNew 2 9; ODestroy 1].
 
-Example ex_all_steps_execute : forallb (fun x => match x with Some _ => true | None => false end) (run_obs (init 4) ex_ops) = true.
+Example ex_all_steps_execute : forallb (fun x => match x with Some _ => true | None => false end) (run_obs alldef (init 4) ex_ops) = true.
 Proof. vm_compute. reflexivity. Qed.
 
 Example ex_final_state :
-  let s := run (init 4) ex_ops in
+  let s := run alldef (init 4) ex_ops in
   vars s = [Live (Some 0); Dead; Live (Some 3); Live None] /\
   map rc (cells s) = [1; 0; 0; 1] /\ map dcount (cells s) = [0; 1; 1; 0] /\ bad s = false.
 Proof. vm_compute. auto. Qed.
 
 (** after the three-alias prefix, unify clones: object 1 is the clone, with the payload of object 0 *)
 Example ex_unify_clones :
-  let s := run (init 4) [ONew 0 5; OCopyCtor 2 0; OConvCopyCtor 1 0; OUnify 0] in
+  let s := run alldef (init 4) [ONew 0 5; OCopyCtor 2 0; OConvCopyCtor 1 0; OUnify 0] in
   vars s = [Live (Some 1); Live (Some 0); Live (Some 0); Dead] /\
-  cells s = [{| rc := 2; dcount := 0; val := 5 |}; {| rc := 1; dcount := 0; val := 5 |}].
+  cells s = [{| rc := 2; dcount := 0; orph := 0; val := 5 |}; {| rc := 1; dcount := 0; orph := 0; val := 5 |}].
 Proof. vm_compute. auto. Qed.
 
 (** moving from an alias does NOT empty the source (early return on ptr_ == other.ptr_); the count stays right *)
 Example ex_move_from_alias :
-  let s := run (init 2) [ONew 0 5; OCopyCtor 1 0; OMoveAssign 0 1] in
+  let s := run alldef (init 2) [ONew 0 5; OCopyCtor 1 0; OMoveAssign 0 1] in
   vars s = [Live (Some 0); Live (Some 0)] /\ map rc (cells s) = [2].
 Proof. vm_compute. auto. Qed.
 
 (** the wrong variant (no alias test, decrement first) destroys the object on self-assignment and then touches it:
     the ledger flag fires *)
 Example copy_assign_decfirst_refuted :
-  let s := run (init 1) [ONew 0 5] in
-  Inv s /\ bad (copy_assign s 0 0) = false /\ bad (copy_assign_decfirst s 0 0) = true.
+  let s := run alldef (init 1) [ONew 0 5] in
+  Inv s /\ bad (copy_assign alldef s 0 0) = false /\ bad (copy_assign_decfirst alldef s 0 0) = true.
 Proof. split; [apply run_inv, init_inv|]. vm_compute. auto. Qed.
+
+(** mixed deleters on one object: a default handle (variable 0) and a no-delete handle (variable 2, made from the raw
+    pointer) both count; when the default handle lets go the object stays; when the no-delete handle lets go last, the
+    no-operation Deleter runs: count 0, object alive and unowned ([orph] = 1, [dcount] = 0).  In the other order the
+    default handle lets go last and the object is destroyed. *)
+Example ex_mixed_deleters :
+  let s1 := run nd2 (init 3) [ONew 0 5; OFromRaw 2 0] in
+  let s2 := run nd2 (init 3) [ONew 0 5; OFromRaw 2 0; OReset 0] in
+  let s3 := run nd2 (init 3) [ONew 0 5; OFromRaw 2 0; OReset 0; OReset 2] in
+  let s4 := run nd2 (init 3) [ONew 0 5; OFromRaw 2 0; OReset 2; OReset 0] in
+  map rc (cells s1) = [2] /\
+  cells s2 = [{| rc := 1; dcount := 0; orph := 0; val := 5 |}] /\
+  cells s3 = [{| rc := 0; dcount := 0; orph := 1; val := 5 |}] /\
+  cells s4 = [{| rc := 0; dcount := 1; orph := 0; val := 5 |}].
+Proof. vm_compute. auto. Qed.
 
 (** concurrent: three threads; thread 0 owns the object, copies for 1 and 2, all release in an interleaved order;
     the last decrement (reads 1) is thread 1's, which deletes *)
@@ -51,3 +71,10 @@ Proof. eexists. split; [vm_compute; reflexivity|]. auto. Qed.
 (** a decrement claiming to have read a stale value is not a transition *)
 Example ex_stale_read_rejected : lrun (cinit [2]) [EvFetchSub 0 1] = None.
 Proof. reflexivity. Qed.
+
+(** unify() on thread 1 while thread 0 releases: projection on the original object; whichever of the two decrements
+    reads 1 runs the Deleter *)
+Example ex_unify_race_original :
+  exists st, lrun (cinit [1; 1]) [EvCloneRead 1; EvFetchSub 0 2; EvFetchSub 1 1; EvDelete 1] = Some st /\
+             destroyed st = 1 /\ quiescent st = true /\ cbad st = false.
+Proof. eexists. split; [vm_compute; reflexivity|]. auto. Qed.
